@@ -318,6 +318,10 @@ impl Scenario for Throttle {
         // only the high-water mark is set (the documented default low-water mark, 0, stays)
         v.push(json!({"bound": 1, "high": 64, "low": null, "stall": 260, "grants": [33]}));
         v.push(json!({"bound": 16, "high": 128, "low": null, "stall": 260, "grants": [33]}));
+        // the server closes channel 1 while the channels are held back, and the id is opened again
+        // at once (under back-pressure); the other publisher and the connection are not affected
+        v.push(json!({"bound": 16, "high": 128, "low": 0, "stall": 300, "grants": [33], "srvclose": true}));
+        v.push(json!({"bound": 1, "high": 64, "low": 0, "stall": 330, "grants": [33], "srvclose": true}));
         // a backlog of megabytes (six messages of 400 000 bytes behind the stall, default-sized
         // high-water mark) that the transport then takes in one go
         v.push(json!({"bound": 16, "high": 16777216, "low": 0, "stall": 260, "grants": [], "body": 400000}));
@@ -357,7 +361,11 @@ impl Scenario for Throttle {
         "two publisher threads (three publishes of 40-byte bodies each) plus the connection thread opening and closing a third channel, over a transport that stalls after 0 / 260 / 330 (thorough also 150 / 500) bytes and is re-opened in grants of 1, 31, 33 or all bytes; tunings (bound, high, low) in {(1,64,0),(2,64,32),(1,0,0),(16,128,0),(0,64,0)}. Oracle: at every poll gate the buffered output is at most high + channels*(bound+1)*largest message + 64; nobody deadlocks; the wire carries every message exactly once in per-channel order".into()
     }
     fn build(&self, p: &Value) -> Built {
-        let broker = StdBroker::new(Handshake::default());
+        let mut broker = StdBroker::new(Handshake::default());
+        let srvclose = p["srvclose"] == true;
+        if srvclose {
+            broker.pushes.push(vh::sim::broker::Push::new("sc1", vec![chan_close_frame(1, 406, "PRECONDITION_FAILED")]).manual());
+        }
         let mut cfg = EnvConfig::default();
         cfg.stall_after = Some(p["stall"].as_u64().unwrap() as usize);
         cfg.grant_menu = p["grants"].as_array().unwrap().iter().map(|x| x.as_u64().unwrap() as usize).collect();
@@ -369,6 +377,10 @@ impl Scenario for Throttle {
         if body_len > 100000 {
             // no call takes more than 64 KiB, but the calls never meet would-block once granted
             cfg.write_chunk = Some(65536);
+        }
+        if srvclose {
+            // only the session itself lets the transport take bytes again
+            cfg.no_grants = true;
         }
         let close_behind = p["close_behind"] == true;
         if close_behind {
@@ -393,8 +405,16 @@ impl Scenario for Throttle {
                     }
                 };
                 let mut actors = Vec::new();
+                // (srvclose: both channels exist before the publishers stall the transport)
+                let mut pre: Vec<Option<amiquip::Channel>> = Vec::new();
+                if srvclose {
+                    for chan in 1..=2u16 {
+                        pre.push(conn.open_channel(Some(chan)).ok());
+                    }
+                }
                 for chan in 1..=2u16 {
-                    let ch = match conn.open_channel(Some(chan)) {
+                    let opened = if srvclose { pre[chan as usize - 1].take().ok_or(amiquip::Error::EventLoopDropped) } else { conn.open_channel(Some(chan)) };
+                    let ch = match opened {
                         Ok(c) => c,
                         Err(e) => {
                             ctx.log(format!("open_channel{} -> Err({})", chan, err_name(&e)));
@@ -407,7 +427,7 @@ impl Scenario for Throttle {
                             let r = ch.basic_publish("ex", Publish::new(&body, "k"));
                             ctx.log(format!("publish{} -> {}", i, res(&r)));
                         }
-                        if close_behind {
+                        if close_behind || (srvclose && chan == 1) {
                             ctx.forget(ch);
                             ctx.log("chclose -> skipped -> Ok");
                             return;
@@ -415,6 +435,29 @@ impl Scenario for Throttle {
                         let r = ch.close();
                         ctx.log(format!("chclose -> {}", res(&r)));
                     }));
+                }
+                if srvclose {
+                    // a helper lets the stalled transport go on once this thread is stuck in the
+                    // reopening (whose OpenOk cannot arrive while nothing is written)
+                    let me = ctx.me();
+                    let (go_tx, go_rx) = crossbeam_channel::bounded::<()>(1);
+                    let g = ctx.spawn("g", move |ctx| {
+                        let _ = ctx.recv("go", &go_rx);
+                        ctx.wait_blocked(me);
+                        ctx.force_grant();
+                    });
+                    actors.push(g);
+                    ctx.wait_io_quiet();
+                    let pushed = ctx.force_push("sc1");
+                    let _ = go_tx.send(());
+                    let r = conn.open_channel(Some(1));
+                    ctx.log(format!("reopen1 (server close pushed {}) -> {:?}", pushed, r.as_ref().map(|c| c.channel_id()).map_err(err_name)));
+                    if let Ok(c) = r {
+                        let r = c.qos(0, 1, false);
+                        ctx.log(format!("reqos1 -> {}", res(&r)));
+                        let r = c.close();
+                        ctx.log(format!("reclose1 -> {}", res(&r)));
+                    }
                 }
                 // a channel opened and closed while the others are (possibly) throttled
                 let c3 = conn.open_channel(Some(3));
@@ -468,6 +511,11 @@ impl Scenario for Throttle {
             v.push(("throttle:partial-frame".into(), format!("{} trailing bytes", rest)));
         }
         for chan in 1..=2u16 {
+            if p["srvclose"] == true && chan == 1 {
+                // (the server closed this channel under the publisher's feet: its calls may fail, what
+                // it had handed over may or may not have been written)
+                continue;
+            }
             let log = o.logs.get(&format!("p{}", chan)).cloned().unwrap_or_default();
             if log.len() != 4 || log.iter().any(|l| !l.ends_with("-> Ok")) {
                 v.push(("throttle:publisher-failed".into(), format!("publisher {} log {:?}", chan, log)));
@@ -517,7 +565,10 @@ impl Scenario for Throttle {
             }
         }
         let main = o.logs.get("main").cloned().unwrap_or_default();
-        let want_main = vec!["open3 -> Ok", "qos3 -> Ok", "close3 -> Ok", "close -> Ok"];
+        let mut want_main = vec!["open3 -> Ok", "qos3 -> Ok", "close3 -> Ok", "close -> Ok"];
+        if p["srvclose"] == true {
+            want_main.splice(0..0, ["reopen1 (server close pushed true) -> Ok(1)", "reqos1 -> Ok", "reclose1 -> Ok"]);
+        }
         if main != want_main {
             v.push(("throttle:connection-thread".into(), format!("main log {:?}", main)));
         }
